@@ -470,6 +470,7 @@ def main():
                                "informational_model_disagreements": corr.get("informational_model_disagreements", 0),
                                "drift_outside_owned_observables": corr["drift"],
                                "owned_observables": sorted(P["mask"]), "tolerance": P.get("tol")},
+            "exhaustively_enumerated_subspaces": P.get("exhaustive_parts", "none (structural classes are stratified, payloads random)"),
             "case_generation": ("thorough sizes: /repo's sources differ from the validated baseline (baseline_src.sha256)" if deep
                                 else "%s sizes" % tier),
             "input_distribution": dict(sorted(corr["histogram"].items(), key=lambda kv: -kv[1])[:40]),
